@@ -18,6 +18,7 @@ EXPLANATION = (
     "negates both signal and step; (D3) read_sync concatenates (digital, thresholded analog) along axis 1 with "
     "complementary < / >= threshold stores, and the digital part decodes the metadata's sync columns of the raw file. "
     "Analog thresholding accuracy around 1.2 V is NOT decided."
+    ' (D2 unwrap) the 1-D result is chosen by the number of dimensions (len(ind) == 1 / ndim == 1), never by np.squeeze without an axis, whose effect depends on the number of detected edges.'
 )
 ASSUMPTIONS = [
     "little-endian host (x86/ARM): the low byte of an int16 comes first in memory",
